@@ -2,7 +2,10 @@
 
 package service
 
-import "github.com/mdzio/go-mqtt/auth"
+import (
+	"github.com/mdzio/go-mqtt/auth"
+	"github.com/mdzio/go-mqtt/topics"
+)
 
 // C09: the will is published exactly when a connection ends without DISCONNECT.
 // C10: clean and persistent sessions.
@@ -641,4 +644,111 @@ func H10_refused_connect() {
 		vrtAssert("C10.session_present_flag", vrtIsConnack(ack3, false, 0))
 	}
 	vrtReach("C10.refused_connect")
+}
+
+// H09_will_same_id: the witness still has an unacknowledged QoS 1 / QoS 2 delivery in flight whose packet
+// identifier (chosen by its publisher, a solver variable) may equal the identifier the broker's own
+// generator gives the will message. The will must reach the witness all the same, exactly once (round-7
+// change C09-13: the outgoing queue refused a second entry with an identifier still in flight and the
+// message was dropped instead of sent).
+func H09_will_same_id() {
+	b := vrtBroker("mockSuccess")
+	gq := 1 + byte(vrtChoice("granted", 2))
+	wit, _ := b.connect(vrtConnectPkt([]byte("wit"), true))
+	vrtExchange(wit, &specPkt{Typ: specSUBSCRIBE, ID: 1, Topics: [][]byte{[]byte("w")}, QoS: []byte{gq}})
+	wit.peerTake()
+	p, _ := b.connect(vrtConnectPkt([]byte("p"), true))
+	x := vrtUint16("id_in_flight")
+	vrtAssume(x != 0)
+	if gq == 1 {
+		vrtExchange(p, &specPkt{Typ: specPUBLISH, Flags: 2, ID: x, Topic: []byte("w"), Payload: []byte("live")})
+	} else {
+		vrtExchange(p, &specPkt{Typ: specPUBLISH, Flags: 4, ID: x, Topic: []byte("w"), Payload: []byte("live")}, &specPkt{Typ: specPUBREL, Flags: 2, ID: x})
+	}
+	got, ok := vrtParse(wit.peerTake())
+	vrtAssert("C09.harness_first_delivery", ok && len(got) == 1 && vrtBytesEq(got[0].Payload, []byte("live")))
+	// (the witness does not acknowledge it)
+	c, _ := b.connect(vrtConnectWithWill([]byte("c"), true, vrtWill{flag: true, qos: gq, topic: []byte("w"), payload: []byte("will")}))
+	c.peerClose()
+	vrtQuiesce()
+	got, ok = vrtParse(wit.peerTake())
+	vrtAssert("C09.will_published_once", ok && len(got) == 1)
+	if ok && len(got) == 1 {
+		vrtAssert("C09.will_content", vrtAnd(got[0].Typ == specPUBLISH, vrtAnd(vrtBytesEq(got[0].Topic, []byte("w")), vrtBytesEq(got[0].Payload, []byte("will")))))
+		vrtAssert("C09.will_qos", (got[0].Flags>>1)&3 == gq)
+		if got[0].ID == x {
+			vrtReach("C09.will_id_collides_with_one_in_flight")
+		}
+	}
+	vrtReach("C09.will_same_id")
+}
+
+// H10m_many_filters: a persistent session with MANY subscriptions (17, 65, 130 or 300 filters, made over
+// one to four SUBSCRIBE packets, granted QoS 0..2 in rotation) is resumed: SessionPresent=1 and a publish
+// to the first, a middle and the last filter is delivered at min(publish QoS, granted QoS) without any
+// re-subscription; after the resumed connection unsubscribes one of them and the session is resumed once
+// more, that one stays gone and its neighbours stay (round-8 change C10-15: the session stopped recording
+// filters beyond the 64th while the live connection kept working).
+func H10m_many_filters() {
+	topics.MaxQosAllowed = 2
+	b := vrtBroker("mockSuccess")
+	w, _ := b.connect(vrtConnectPkt([]byte("w"), true))
+	ns := []int{17, 65, 130, 300}
+	if vrtBound("N10many", 300) < 300 {
+		ns = ns[:3]
+	}
+	n := ns[vrtChoice("nfilters", len(ns))]
+	per := []int{n, 50, 100}[vrtChoice("per_packet", 3)]
+	name := func(i int) []byte { return []byte{'f', byte('0' + i/64), byte('0' + i%64)} }
+	c1, ack := b.connect(vrtConnectPkt([]byte("x"), false))
+	vrtAssert("C10.session_present_flag", vrtIsConnack(ack, false, 0))
+	id := uint16(1)
+	for lo := 0; lo < n; lo += per {
+		sub := &specPkt{Typ: specSUBSCRIBE, ID: id}
+		var codes []byte
+		for i := lo; i < lo+per && i < n; i++ {
+			sub.Topics = append(sub.Topics, name(i))
+			sub.QoS = append(sub.QoS, byte(i%3))
+			codes = append(codes, byte(i%3))
+		}
+		ans := vrtExchange(c1, sub)
+		vrtAssert("C10.harness_suback", vrtBytesEq(ans, specEncode(&specPkt{Typ: specSUBACK, ID: id, Codes: codes})))
+		id++
+	}
+	vrtEnd(c1, vrtChoice("end1", 2))
+	vrtAssert("C10.store_size", b.svr.sessMgr.Count() == 2) // the persistent session and the live witness
+	idx := []int{0, 63, 64, n / 2, n - 1}[vrtChoice("which", 5)]
+	if idx >= n {
+		return
+	}
+	check := func(c *vrtConn, i int, want bool, tag string) {
+		c.peerTake()
+		vrtExchange(w, &specPkt{Typ: specPUBLISH, Flags: 2, ID: 77, Topic: name(i), Payload: []byte(tag)})
+		got, ok := vrtParse(c.peerTake())
+		vrtAssert("C10.stream_wellformed", ok)
+		if !want {
+			vrtAssert("C10.unsubscribed_filter_stays_gone", len(got) == 0)
+			return
+		}
+		vrtAssert("C10.restored_subscription_delivers", len(got) == 1 && got[0].Typ == specPUBLISH)
+		if len(got) == 1 {
+			vrtAssert("C10.restored_subscription_qos", (got[0].Flags>>1)&3 == specMinQos(1, byte(i%3)))
+			vrtAssert("C10.restored_subscription_content", vrtAnd(vrtBytesEq(got[0].Topic, name(i)), vrtBytesEq(got[0].Payload, []byte(tag))))
+		}
+	}
+	c2, ack2 := b.connect(vrtConnectPkt([]byte("x"), false))
+	vrtAssert("C10.session_present_flag", vrtIsConnack(ack2, true, 0))
+	check(c2, idx, true, "second")
+	ans := vrtExchange(c2, &specPkt{Typ: specUNSUBSCRIBE, ID: 90, Topics: [][]byte{name(idx)}})
+	vrtAssert("C10.harness_unsuback", vrtBytesEq(ans, []byte{0xb0, 2, 0, 90}))
+	vrtEnd(c2, vrtChoice("end2", 2))
+	c3, ack3 := b.connect(vrtConnectPkt([]byte("x"), false))
+	vrtAssert("C10.session_present_flag", vrtIsConnack(ack3, true, 0))
+	check(c3, idx, false, "third")
+	other := idx + 1
+	if other >= n {
+		other = idx - 1
+	}
+	check(c3, other, true, "neighbour")
+	vrtReach("C10.many_filters")
 }
